@@ -5,8 +5,8 @@ vars=${@:-a b}
 for v in $vars; do
   src=$round/$id/out/$v
   [ -f $src/patch.diff ] || { echo "== $id-$v: no patch"; continue; }
-  echo "== $id-$v"
-  tools/seed_confirm.py $src $id --name $id-$v --keep 2>&1 | /venv/bin/python -c "
+  echo "== $id-${SUFFIX_PREFIX}$v"
+  tools/seed_confirm.py $src $id --name $id-${SUFFIX_PREFIX}$v --keep ${EXTRA_CHECKS:+--checks $EXTRA_CHECKS} 2>&1 | /venv/bin/python -c "
 import sys,json
 txt=sys.stdin.read()
 try:
